@@ -10,7 +10,7 @@ import os
 import re
 from mir2smt.ob import *
 from mir2smt import terms as T
-from mir2smt.exec import OpaqueV, IntV, BoolV, AggV, EnumV, RefV, UNIT, Exec, Stop, mk_option
+from mir2smt.exec import OpaqueV, IntV, BoolV, AggV, EnumV, RefV, UNIT, Exec, Stop, mk_option, mk_result
 from mir2smt import envlib as E
 from mir2smt.builtins import deref
 from mir2smt.srcinfo import struct_fields
@@ -801,7 +801,170 @@ def m10_aggregates_after_removing_a_subtree(S):
     S.witness(ctx, ob, "reach", pre, T.gt(own("C", "size"), 1))
 
 
-OBLIGATIONS = [m1_aggregate_steps, m2_initial_and_reset, m3_score_key, m4_evict_key, m5_reported_info, m6_score_key_transitive, m7_counters, m8_links_recorded_for_a_new_entry, m9_aggregates_after_a_late_parent, m10_aggregates_after_removing_a_subtree]
+def m11_detached_proposal_readds_parents_first(S):
+    """`TxPool::remove_by_detached_proposal` (a reorganisation took a proposal out of the window): the non-pending transaction and its descendants are taken out and re-added as
+    pending -- PARENTS BEFORE CHILDREN (ascending order of the ancestor count they had when they were removed), each with its statistics reset to its own values, so that
+    add_pending rebuilds consistent aggregates.  Two removed entries in either input order, ancestor counts symbolic; a pending transaction is left alone."""
+    from mir2smt.exec import ListV
+    ob = "C11.m11"
+    f = [x for x in S.prog.funcs if x.kind == "fn" and x.short == "remove_by_detached_proposal" and "tx-pool/src/pool.rs" in x.name and "{closure" not in x.name]
+    if len(f) != 1:
+        raise Inconclusive(f"remove_by_detached_proposal: {len(f)} candidates")
+    src = open(os.path.join(os.environ.get("VERIF_REPO", "/repo"), "tx-pool/src/component/pool_map.rs")).read()
+    m = re.search(r"pub enum Status\s*\{([^}]*)\}", src)
+    variants = [v.strip() for v in re.sub(r"//[^\n]*", "", m.group(1)).split(",") if v.strip()]
+    pe = struct_fields("tx-pool/src/component/pool_map.rs", "PoolEntry")
+    order = struct_fields(ENTRY_RS, "TxEntry")
+    ctx = S.ctx(unwind=8)
+    ctx.uninterpreted_unknown_calls = True
+    status = ctx.int("status", "u8")
+    ctx.add_side(T.le(status.t, len(variants) - 1))
+    ea, ta, _ = entry(ctx, "A")
+    eb, tb, _ = entry(ctx, "B")
+    readd = []
+
+    def nmv(ex, v):
+        v = deref(ex, v)
+        return getattr(v, "name", None) or type(v).__name__
+
+    def add_pending(ex, c, a, d):
+        e = deref(ex, a[1])
+        who = nmv(ex, e.fields[order.index("rtx")]).split(".")[0]
+        readd.append((who, {k: as_int(e.fields[order.index(k)]) for k in ("ancestors_count", "ancestors_size", "descendants_count", "descendants_size", "size")}, list(ex.pc)))
+        ex.log.append(("readd", c, [who], list(ex.pc)))
+        return mk_result(True, BoolV(True), OpaqueV("reject", "Reject"), d)
+    pentry = AggV(tuple(EnumV(status.t, (), "Status") if fld == "status" else OpaqueV("pe." + fld, "?") for fld in pe), "PoolEntry")
+    ctx.env = list(E.LOGGING_OFF) + [
+        (E.rx(r"PoolMap::get_by_id$"), lambda ex, c, a, d: mk_option(True, ex.ctx.ref_to(pentry), d)),
+        (E.rx(r"PoolMap::remove_entry_and_descendants$"), lambda ex, c, a, d: ListV((ea, eb), "Vec<TxEntry>")),
+        (E.rx(r"TxPool::add_pending$"), add_pending),
+        (E.rx(r"TxEntry::transaction$|TransactionView::hash$"), E.opaque_call()),
+        (E.rx(r"get_transaction_weight$"), lambda ex, c, a, d: ex.ctx.fresh_of_type("w", d)),
+        (E.rx(r"as Iterator>::for_each::<"), lambda ex, c, a, d: ([ex.call_value(ex.top_frame, a[1], [x], "()") for x in E._rest(ex, deref(ex, a[0]))], UNIT)[1]),
+        (E.rx(r"core::slice::<impl \[.*TxEntry\]>::iter_mut$"), lambda ex, c, a, d: _iter_mut_cells(ex, a[0])),
+    ] + list(E.LIST_ADAPTORS)
+    ids = E.list_source([OpaqueV("detached_id", "ProposalShortId")], owned=False)(None, "", [], "")
+    ps = S.run(ctx, f[0], [ctx.ref_to(OpaqueV("pool", "TxPool")), ids])
+    S.prove(ctx, ob, "no_panic", [], T.not_(cond_of(panics(ps))))
+    pending = T.eq(status.t, variants.index("Pending"))
+    any_readd = T.or_(*[T.and_(*pc) for _, _, pc in readd]) if readd else False
+    S.prove(ctx, ob, "a_pending_transaction_is_left_alone", [pending], T.not_(any_readd))
+    S.prove(ctx, ob, "a_gap_or_proposed_transaction_and_its_descendants_are_readded", [T.not_(pending)], T.and_(
+        T.or_(*[T.and_(*pc) for w, _, pc in readd if w == "A"]) if readd else False, T.or_(*[T.and_(*pc) for w, _, pc in readd if w == "B"]) if readd else False))
+    # order: on every path the entry re-added first had the smaller-or-equal ancestor count at removal time
+    bad = []
+    for p in returns(ps):
+        seq = [e[2][0] for e in p.log if e[0] == "readd"]
+        if seq == ["A", "B"]:
+            bad.append(T.and_(p.cond(), T.gt(ta["ancestors_count"], tb["ancestors_count"])))
+        elif seq == ["B", "A"]:
+            bad.append(T.and_(p.cond(), T.gt(tb["ancestors_count"], ta["ancestors_count"])))
+        elif seq:
+            bad.append(p.cond())
+    S.prove(ctx, ob, "readded_in_ascending_order_of_the_ancestor_count_at_removal_parents_first", [], T.not_(T.or_(*bad)) if bad else True)
+    S.witness(ctx, ob, "reach_child_listed_first", [T.not_(pending), T.gt(ta["ancestors_count"], tb["ancestors_count"])], any_readd)
+    resets = []
+    for who, vals, pc in readd:
+        resets.append(T.implies(T.and_(*pc), T.and_(T.eq(vals["ancestors_count"], 1), T.eq(vals["descendants_count"], 1), T.eq(vals["ancestors_size"], vals["size"]), T.eq(vals["descendants_size"], vals["size"]))))
+    S.prove(ctx, ob, "each_readded_entry_has_its_statistics_reset_to_its_own_values", [], T.and_(*resets) if resets else False)
+
+
+def _iter_mut_cells(ex, vec_ref):
+    """`slice.iter_mut()` over a concrete-length list: an iterator of references into fresh cells; the cells are written back to the list when the iterator is consumed
+    by `for_each` (handled by reading the cells afterwards is not needed: the closure writes through RefV into the list local itself)"""
+    from mir2smt.exec import ListV
+    lst = deref(ex, vec_ref)
+    refs = []
+    for i in range(len(lst.items)):
+        refs.append(RefV(vec_ref.frame, vec_ref.local, tuple(vec_ref.proj) + (("cindex", i),)))
+    return AggV((ListV(tuple(refs), "Vec<&mut TxEntry>"), IntV(0, "usize")), "ListIter")
+
+
+def m12_rbf_pays_for_everything_it_replaces(S):
+    """`TxPool::check_rbf` with one directly conflicting pooled transaction X that has one pooled descendant Y (everything `process_rbf` will evict): the minimum replacement fee is
+    computed over ALL replaced transactions (X and Y, via calculate_min_replace_fee), the replacement is admitted only if its fee is at least that minimum and none of the
+    structural rules fires (each rule's predicate is a symbolic boolean), and the set reported back is the set of direct conflicts."""
+    from mir2smt.exec import ListV
+    from mir2smt.builtins import _wr
+    ob = "C11.m12"
+    f = [x for x in S.prog.funcs if x.kind == "fn" and x.short == "check_rbf" and "tx-pool/src/pool.rs" in x.name and "{closure" not in x.name]
+    if len(f) != 1:
+        raise Inconclusive(f"check_rbf: {len(f)} candidates")
+    pe = struct_fields("tx-pool/src/component/pool_map.rs", "PoolEntry")
+    ctx = S.ctx(unwind=8)
+    ctx.uninterpreted_unknown_calls = True
+    ctx.max_paths = 4000
+    new_entry, tn, order = entry(ctx, "N")
+    minfee = ctx.int("min_replace_fee", "u64"); has_min = ctx.bool("min_replace_fee_computable")
+    asked = []
+
+    def nmv(ex, v):
+        v = deref(ex, v)
+        return getattr(v, "name", None) or type(v).__name__
+
+    def pool_entry(n):
+        return AggV(tuple(OpaqueV("id" + n, "ProposalShortId") if fld == "id" else OpaqueV(f"{n}.{fld}", "?") for fld in pe), "PoolEntry")
+    pes = {"idX": pool_entry("X"), "idY": pool_entry("Y")}
+
+    def get_pool_entry(ex, c, a, d):
+        k = nmv(ex, a[1])
+        if k not in pes:
+            raise Stop("get_pool_entry of " + k)
+        return mk_option(True, ex.ctx.ref_to(pes[k]), d)
+
+    def any_(ex, c, a, d):
+        k = len([e for e in ex.log if e[0] == "any"])
+        ex.log.append(("any", c, [], list(ex.pc)))
+        return ex.ctx.bool(f"rule_predicate_{k}")
+
+    def min_fee(ex, c, a, d):
+        lst = deref(ex, a[1])
+        names = sorted(nmv(ex, deref(ex, x).fields[pe.index("id")]) for x in lst.items) if isinstance(lst, ListV) else None
+        asked.append((names, list(ex.pc)))
+        return mk_option(has_min.t, AggV((minfee,), "Capacity"), d)
+
+    def vec_extend(ex, c, a, d):
+        v, o = deref(ex, a[0]), deref(ex, a[1])
+        if isinstance(v, ListV) and isinstance(o, ListV):
+            _wr(ex, a[0], ListV(tuple(v.items) + tuple(o.items), v.ty))
+            return UNIT
+        return UNIT
+    setlist = lambda *names: ListV(tuple(OpaqueV(n, "ProposalShortId") for n in names), "set")
+    ctx.env = list(E.LOGGING_OFF) + [
+        (E.rx(r"TxPool::enable_rbf$"), lambda ex, c, a, d: BoolV(True)),
+        (E.rx(r"TxEntry::transaction$"), lambda ex, c, a, d: ex.ctx.ref_to(OpaqueV("tx_of." + nmv(ex, deref(ex, a[0]).fields[order.index("rtx")] if isinstance(deref(ex, a[0]), AggV) else a[0]), "TransactionView"))),
+        (E.rx(r"TxEntry::proposal_short_id$"), lambda ex, c, a, d: OpaqueV("idN", d)),
+        (E.rx(r"TransactionView::input_pts_iter$"), lambda ex, c, a, d: E.list_source([OpaqueV("in." + nmv(ex, a[0]), "OutPoint")])(ex, c, a, d)),
+        (E.rx(r"TransactionView::cell_deps_iter$"), lambda ex, c, a, d: E.list_source([])(ex, c, a, d)),
+        (E.rx(r"PoolMap::find_conflict_tx$"), lambda ex, c, a, d: setlist("idX")),
+        (E.rx(r"PoolMap::calc_ancestors$"), lambda ex, c, a, d: setlist()),
+        (E.rx(r"PoolMap::calc_descendants$"), lambda ex, c, a, d: setlist("idY") if nmv(ex, a[1]) == "idX" else setlist()),
+        (E.rx(r"TxPool::get_pool_entry$"), get_pool_entry),
+        (E.rx(r"HashSet::<[\w:]*ProposalShortId(, [\w:]+)?>::(is_empty|len)$"), lambda ex, c, a, d: BoolV(len(deref(ex, a[0]).items) == 0) if c.endswith("is_empty") else IntV(len(deref(ex, a[0]).items), "usize")),
+        (E.rx(r"HashSet::<[\w:]*ProposalShortId(, [\w:]+)?>::iter$"), lambda ex, c, a, d: AggV((deref(ex, a[0]), IntV(0, "usize")), "ListIterRef")),
+        (E.rx(r"HashSet::<[\w:]*ProposalShortId(, [\w:]+)?>::is_disjoint$"), lambda ex, c, a, d: ex.ctx.bool("descendants_disjoint_from_new_ancestors")),
+        (E.rx(r"HashSet::<[\w:]*OutPoint(, [\w:]+)?>::new$"), lambda ex, c, a, d: OpaqueV("inputs_set", d)),
+        (E.rx(r"<HashSet<[\w:]*OutPoint(, [\w:]+)?> as Extend<.*>>::extend"), lambda ex, c, a, d: UNIT),
+        (E.rx(r"<Vec<&[\w:]*PoolEntry> as Extend<.*>>::extend"), vec_extend),
+        (E.rx(r"as Iterator>::any::<"), any_),
+        (E.rx(r"TxPool::calculate_min_replace_fee$"), min_fee),
+        (E.rx(r"Reject::RBFRejected$"), lambda ex, c, a, d: OpaqueV("rbf_rejected", d)),
+        (E.rx(r"fmt::|format|to_string$|ToString"), E.opaque_call()),
+    ] + list(E.LIST_ADAPTORS)
+    ps = S.run(ctx, f[0], [ctx.ref_to(OpaqueV("pool", "TxPool")), ctx.ref_to(OpaqueV("snapshot", "Snapshot")), ctx.ref_to(new_entry)])
+    S.prove(ctx, ob, "no_panic", [], T.not_(cond_of(panics(ps))))
+    S.prove(ctx, ob, "minimum_fee_is_computed_over_the_conflict_and_its_descendants", [], bool(asked and all(n == ["idX", "idY"] for n, _ in asked)), extra={"note": str([n for n, _ in asked][:3])})
+    oks = [p for p in returns(ps) if isinstance(p.value, EnumV) and p.value.disc == 0]
+    accept = T.or_(*[p.cond() for p in oks]) if oks else False
+    reached = T.or_(*[T.and_(*pc) for _, pc in asked]) if asked else False
+    S.prove(ctx, ob, "admitted_only_if_the_fee_covers_the_minimum_over_all_replaced", [], T.implies(accept, T.and_(reached, has_min.t, T.ge(tn["fee"], minfee.t))))
+    S.prove(ctx, ob, "admitted_when_no_rule_fires_and_the_fee_covers_the_minimum", [reached, has_min.t, T.ge(tn["fee"], minfee.t)], accept)
+    ret_sets = [sorted(nmv(None, x) for x in p.value.payload(0)[0].items) if isinstance(p.value.payload(0)[0], ListV) else None for p in oks]
+    S.prove(ctx, ob, "reports_the_direct_conflicts", [], bool(ret_sets and all(r == ["idX"] for r in ret_sets)), extra={"note": str(ret_sets[:2])})
+    S.witness(ctx, ob, "reach_accept", [], accept)
+
+
+OBLIGATIONS = [m1_aggregate_steps, m2_initial_and_reset, m3_score_key, m4_evict_key, m5_reported_info, m6_score_key_transitive, m7_counters, m8_links_recorded_for_a_new_entry, m9_aggregates_after_a_late_parent, m10_aggregates_after_removing_a_subtree, m11_detached_proposal_readds_parents_first, m12_rbf_pays_for_everything_it_replaces]
 TECHNIQUE = "symbolic execution of rustc MIR -> integer-theory SMT (cvc5 + z3); counterexamples replayed in a native build of the same source files"
 DESIGN_REF = "DESIGN.md section 4 (C11)"
 
